@@ -30,6 +30,7 @@ type mEntry struct {
 	uses  []int
 	calls []int
 	wg    [3]int
+	wgS   [3]string // spelling of the workgroup_size arguments
 	// stage IO
 	inLocs  []int
 	outLocs []int
@@ -138,11 +139,11 @@ func genMulti(c *ctx) *mModule {
 		}
 		switch k {
 		case "storage_rw":
-			g.decl = fmt.Sprintf("@group(%d) @binding(%d) var<storage, read_write> %s: array<u32>;", g.group, g.binding, g.name)
+			g.decl = fmt.Sprintf("@group(%s) @binding(%s) var<storage, read_write> %s: array<u32>;", c.attrNum(g.group), c.attrNum(g.binding), g.name)
 		case "storage_r":
-			g.decl = fmt.Sprintf("@group(%d) @binding(%d) var<storage, read> %s: array<u32>;", g.group, g.binding, g.name)
+			g.decl = fmt.Sprintf("@group(%s) @binding(%s) var<storage, read> %s: array<u32>;", c.attrNum(g.group), c.attrNum(g.binding), g.name)
 		case "uniform":
-			g.decl = fmt.Sprintf("@group(%d) @binding(%d) var<uniform> %s: UB;", g.group, g.binding, g.name)
+			g.decl = fmt.Sprintf("@group(%s) @binding(%s) var<uniform> %s: UB;", c.attrNum(g.group), c.attrNum(g.binding), g.name)
 		case "private":
 			g.decl = fmt.Sprintf("var<private> %s: u32;", g.name)
 		default:
@@ -177,7 +178,7 @@ func genMulti(c *ctx) *mModule {
 				f.sampling = []string{"", "center", "centroid", "sample"}[c.rng.Intn(4)]
 			}
 		}
-		locA := fmt.Sprintf("@location(%d)", f.loc)
+		locA := fmt.Sprintf("@location(%s)", c.attrNum(f.loc))
 		intA := ""
 		if f.interp != "" {
 			intA = "@interpolate(" + f.interp
@@ -199,6 +200,7 @@ func genMulti(c *ctx) *mModule {
 		e.uses = subset(c, ng, 0.3)
 		e.calls = subset(c, nh, 0.5)
 		e.wg = [3]int{1 + c.rng.Intn(8), 1 + c.rng.Intn(4), 1 + c.rng.Intn(2)}
+		e.wgS = [3]string{c.attrNum(e.wg[0]), c.attrNum(e.wg[1]), strings.TrimSuffix(c.attrNum(e.wg[2]), ",")}
 		m.entries = append(m.entries, e)
 	}
 	return m
@@ -313,7 +315,7 @@ func (m *mModule) wgsl() string {
 		}
 		switch e.stage {
 		case "compute":
-			fmt.Fprintf(&b, "@compute @workgroup_size(%d, %d, %d)\nfn %s() {\n%s}\n", e.wg[0], e.wg[1], e.wg[2], e.name, body.String())
+			fmt.Fprintf(&b, "@compute @workgroup_size(%s, %s, %s)\nfn %s() {\n%s}\n", strings.TrimSuffix(e.wgS[0], ","), strings.TrimSuffix(e.wgS[1], ","), e.wgS[2], e.name, body.String())
 		case "vertex":
 			fmt.Fprintf(&b, "@vertex\nfn %s(@builtin(vertex_index) vi: u32, @location(0) pos: vec4<f32>) -> VO {\n%s  var o: VO;\n  o.p = pos + vec4<f32>(f32(acc + vi));\n", e.name, body.String())
 			for i, f := range m.io {
